@@ -85,6 +85,29 @@ func TestGeneratedPrograms(t *testing.T) {
 	})
 }
 
+// TestLargePrograms: more than two 1024-entry pool blocks of positions and tokens in one parse.
+func TestLargePrograms(t *testing.T) {
+	harness.Check(t, "large", 120, 5000, func(rt *rapid.T) {
+		v := rapid.SampledFrom([]px.Ver{px.V56, px.V74}).Draw(rt, "version")
+		o := progs.Options(v)
+		o.NoHalt = true
+		c := progs.Draw(rt, v, o, 120, 200)
+		lay := c.G.Render(c.Root, progs.Policy(rt, phpgen.PolicyFull, nil))
+		src := lay.Src
+		harness.Class("src=large")
+		cl, m, ok := checkOne(src, v)
+		if !ok {
+			harness.Fail(rt, "valid-rejected", src, meta(v), "[%s] generated valid large program did not parse without errors", v)
+		}
+		if cl != "" {
+			harness.Fail(rt, cl, src, meta(v), "%s", m)
+		}
+		if lay.Tokens > 2500 {
+			harness.Class("tokens>2500")
+		}
+	})
+}
+
 func trunc(b []byte, n int) []byte {
 	if len(b) > n {
 		return b[:n]
